@@ -1,6 +1,7 @@
 """Code-vs-mirror conformance: compare what pyxis did (registry projection, static projection
 of the emitted files) with what the TLA+ mirror predicted.  A difference here is *drift*,
 never by itself a violation: verdicts are decided by the property oracles."""
+import json
 from .common import NONE
 
 BASE_ENUM_DERIVES = ["PartialEq", "Eq", "PartialOrd", "Ord", "Debug"]
@@ -144,10 +145,10 @@ def item_drift(name, mi, oi):
         else:
             for a, b in zip(mm, om):
                 diffs += _method_cmp(_meth_norm(a), _meth_norm(b), f"{w}.{a['name']}")
-        good = sorted((str(_ty_norm(a["ty"])), tuple(a["path"])) for a in mi["asrefs"] if not a["conflict"])
+        good = sorted((json.dumps(_ty_norm(a["ty"]), sort_keys=True), tuple(a["path"])) for a in mi["asrefs"] if not a["conflict"])
         for key in ("asrefs", "asmuts"):
             # the code also emits the reflexive conversion T -> T
-            got = sorted((str(_ty_norm(a["ty"])), tuple(a["path"])) for a in oi.get(key, []) if a["path"])
+            got = sorted((json.dumps(_ty_norm(a["ty"]), sort_keys=True), tuple(a["path"])) for a in oi.get(key, []) if a["path"])
             if good != got:
                 diffs.append(f"{w}.{key}: {good} != {got}")
         nconf = sum(1 for a in mi["asrefs"] if a["conflict"])
@@ -219,8 +220,8 @@ def files_drift(mirror_out, obs_files):
                     diffs.append(f"item {n}: emitted but not predicted")
                 continue
             diffs += item_drift(n, mitems[n], oitems.get(n))
-        mev = sorted(((e["name"], e["vis"], str(_ty_norm(e["ty"])), e["addr"]) for e in m["evals"]))
-        oev = sorted(((e["name"], e["vis"], str(_ty_norm(e["ret"].get("t"))), e["addr"]) for e in proj["evals"]))
+        mev = sorted(((e["name"], e["vis"], json.dumps(_ty_norm(e["ty"]), sort_keys=True), e["addr"]) for e in m["evals"]))
+        oev = sorted(((e["name"], e["vis"], json.dumps(_ty_norm(e["ret"].get("t")), sort_keys=True), e["addr"]) for e in proj["evals"]))
         if mev != oev:
             diffs.append(f"file {'/'.join(p)}.evals: {mev} != {oev}")
     return diffs
